@@ -3,7 +3,7 @@ from ..propbase import deductive, lines_universe, inline_universe, STD_TRUST, AL
 from ..report import Report
 
 SB = "markdown_it.rules_block.state_block.StateBlock."
-FUNCS = [SB + "__init__"] + [SB + m for m in ("skipSpaces", "skipCharsStr", "skipSpacesBack", "skipCharsStrBack", "skipEmptyLines")] + [
+FUNCS = [SB + "__init__", SB + "getLines"] + [SB + m for m in ("skipSpaces", "skipCharsStr", "skipSpacesBack", "skipCharsStrBack", "skipEmptyLines")] + [
     "markdown_it.rules_block.hr.hr", "markdown_it.rules_block.heading.heading", "markdown_it.rules_block.lheading.lheading", "markdown_it.rules_block.fence.fence", "markdown_it.rules_block.code.code",
     "markdown_it.rules_block.html_block.html_block", "markdown_it.rules_block.paragraph.paragraph",
     "markdown_it.rules_block.list.skipOrderedListMarker", "markdown_it.rules_block.list.skipBulletListMarker"]
@@ -19,6 +19,8 @@ def run(tier, seed):
     cfgs = ["commonmark", "js-default", "zero", "cm-heading", "cm+table+strike", "cm-maxnest1", "cm+typo", "cm-code", "cm+defs"]
     lines_universe(rep, "vf.checks:no_exception", tier, "MarkdownIt.parse/render/parseInline/renderInline", "no exception, no hang (2 s per document)",
                    cfgs=cfgs if tier == "quick" else ALL_CFGS, exception_is_failure=True, timeout_is_failure=True, rule="distinct top-level token type sequences")
+    lines_universe(rep, "vf.checks:block_contracts", tier, "the seven leaf block rules (real calls during parse)", "every precondition (WF1-5, range) and postcondition of their contracts, evaluated natively on every real call",
+                   cfgs=["commonmark", "js-default", "cm-code"], rule="distinct token-stream signatures")
     inline_universe(rep, "vf.checks:no_exception", tier, "MarkdownIt.render/renderInline", "no exception, no hang", cfgs=["commonmark", "cm+typo", "js-default"],
                     exception_is_failure=True, timeout_is_failure=True, quick_k=2, thorough_k=3)
     from .c17 import add_cons
@@ -33,5 +35,5 @@ def run(tier, seed):
         "the renderer's Python-level safety and getLines (assumed contract) are covered by the bounded monitor only.")
     rep.trusted_base += STD_TRUST
     rep.assumptions += ["WF (DESIGN 3.2) holds at every rule call: monitored at run time, established deductively only for the leaf rules' callers in progress",
-                       "generic rule contract for terminator rules (plugins assumed to satisfy it)", "StateBlock.getLines under an assumed contract"]
+                       "generic rule contract for terminator rules (plugins assumed to satisfy it)", "StateBlock.getLines: safety and termination proved under its EOF precondition; the content of its result is summarised by an uninterpreted string function"]
     return rep
